@@ -185,6 +185,23 @@ func tableCase(r *rng.R) []byte {
 	case 5:
 		bsz = 0x7ffffff0 + r.Intn(16)
 	}
+	// 32-bit wrap-around classes: sizes whose sum (or whose sum with small constants) wraps
+	switch r.Intn(10) {
+	case 0:
+		bsz = (1 << 32) - tsz + r.Intn(5) - 2
+	case 1:
+		bsz = 0xffffffff - r.Intn(12)
+	case 2:
+		tsz = (1 << 32) - bsz + r.Intn(5) - 2
+	case 3:
+		bsz, tsz = 0x80000000+r.Intn(3)-1, 0x80000000+r.Intn(3)-1
+	}
+	if bsz < 0 {
+		bsz = 0
+	}
+	if tsz < 0 {
+		tsz = 0
+	}
 	out := append([]byte{}, r.Bytes(r.Intn(4))...) // prefix bytes before the value
 	out = append(out, body...)
 	out = append(out, table...)
